@@ -606,7 +606,8 @@ class ExpressionEngine:
         if other:
             for supported in '"', '\'', '':
                 if supported in char_escape:
-                    quote = supported
+                    # an unquoted value has no quote character to escape
+                    quote = supported or '\0'
                     break
             else:
                 raise RuntimeError(
